@@ -170,16 +170,18 @@ def fromCoerced (s : List Char) : Option Ver :=
   | none => none
   | some v => some { v with pre := if falsy v.pre then v.pre else v.pre.map lower, revision := rev }
 
-/-- the `value` of a `NugetVersion`: `None` (for the empty normalized string) or a `nuget.Version` -/
+/-- the `value` of a `NugetVersion`: a `nuget.Version`.  The type keeps Python's `None` (`none`),
+which `from_string("")` returns, but `construct` never yields it (`construct_isSome`). -/
 abbrev Raw := Option Ver
 
-/-- `NugetVersion(string)`.  `from_string("")` returns `None`, so `is_valid` answers `True` and the
-version object is built with `value = None`.  A string without any digit raises
-`InvalidNuGetVersion`, which is not a `ValueError` and escapes. -/
+/-- `NugetVersion(string)`.  `is_valid` is `build_value(string) is not None` with `ValueError` and
+`InvalidNuGetVersion` caught: the empty normalized string (`from_string` returns `None`), a string
+without any digit (`InvalidNuGetVersion`) and a string semver rejects (`ValueError`) are all
+`InvalidVersion`. -/
 def construct (s : List Char) : Except PErr Raw :=
   let n := normalize s
-  if n.isEmpty then .ok none
-  else if !n.any isDigit then .error (.other "InvalidNuGetVersion")
+  if n.isEmpty then .error .invalid
+  else if !n.any isDigit then .error .invalid
   else match fromCoerced n with
     | none => .error .invalid
     | some v => .ok (some v)
@@ -260,7 +262,7 @@ def ltV (x y : Ver) : Bool :=
 def vercmpV (x y : Ver) : Ordering :=
   if ltV x y then .lt else if eqV x y then .eq else .gt
 
-/-- The three-way comparison of the values.  `None` (the value of `NugetVersion("")`) is placed
+/-- The three-way comparison of the values.  `None` (no longer constructible, see `construct_isSome`) is placed
 below every version here; in the real code an ordering operator between `None` and a version
 raises `TypeError` (see `defined`). -/
 def vercmp : Raw → Raw → Ordering
